@@ -232,10 +232,12 @@ def run(ctx):
         parsed = [e for e in trace if e[0] == 'parsed']
         written = [e for e in trace if e[0] == 'write']
         want_names = ['s%02d' % i for i in eligible]
-        if [e[1] for e in written] != want_names:
+        if not written:
+            ctx.event('trace:no-write-events(observed nothing at FitInfoFile.write; the file content decides)')
+        elif [e[1] for e in written] != want_names:
             ctx.violation('trace:records-written', 'records written are not exactly the eligible lines, in input order, once each',
                           dict(wit0, written=[e[1] for e in written], expected=want_names))
-        wrote = sorted(set(os.path.relpath(p, d) for p in tr.written(under=d)))
+        wrote = sorted(set(os.path.relpath(p, d) for p in tr.produced(under=d)))
         if wrote != ['fits.out']:
             ctx.violation('trace:files', 'fit() wrote files other than its output', dict(wit0, written=wrote))
         # independent fitter, object interface
@@ -264,10 +266,10 @@ def run(ctx):
             continue
         if len(recs) != len(expect):
             ctx.violation('file:record-count', 'file does not contain one record per eligible source', dict(wit0, read=len(recs), expected=len(expect)))
-        for r, e, w in zip(recs, expect, written):
+        for ir_, (r, e) in enumerate(zip(recs, expect)):
             ctx.event('record:compared')
             d1 = probe.same_canon(probe.canon_info(e), probe.canon_info(r))
-            d2 = probe.same_canon(w[2], probe.canon_info(r))
+            d2 = probe.same_canon(written[ir_][2], probe.canon_info(r)) if ir_ < len(written) else []
             if d1 or d2:
                 ctx.violation('file:record-differs', 'a record read back differs from what the object interface returns / from what was written: %s %s' % (d1, d2),
                               dict(wit0, source=e.source.name))
